@@ -69,7 +69,7 @@ func unmapActorProperties(mm map[string][]byte, a *Actor) error {
 		}
 	}
 	if raw, ok := mm["endpoints"]; ok {
-		if err = a.Endpoints.GobDecode(raw); err != nil {
+		if a.Endpoints, err = gobDecodeEndpoints(raw); err != nil {
 			return err
 		}
 	}
@@ -385,6 +385,12 @@ func gobDecodeNaturalLanguageValues(data []byte) (NaturalLanguageValues, error) 
 	n := make(NaturalLanguageValues, 0)
 	err := n.GobDecode(data)
 	return n, err
+}
+
+func gobDecodeEndpoints(data []byte) (*Endpoints, error) {
+	e := new(Endpoints)
+	err := e.GobDecode(data)
+	return e, err
 }
 
 func gobDecodeItems(data []byte) (ItemCollection, error) {
